@@ -105,6 +105,8 @@ ToPattern(rs) == <<Grp(ToPatSeq(rs))>>
 Specials == {40, 41, 91, 93, 123, 125, 63, 42, 43, 124, 92, 94, 36, 46, 47}
 RECURSIVE RSrc(_), RSrcSeq(_), AltSrc(_, _)
 StrBytes(s) == CASE s = "_1" -> <<49>> [] s = "_2" -> <<50>> [] s = "_3" -> <<51>> [] s = "_4" -> <<52>>
+                 [] s = "_5" -> <<53>> [] s = "_6" -> <<54>> [] s = "_7" -> <<55>> [] s = "_8" -> <<56>> [] s = "_9" -> <<57>>
+                 [] s = "_10" -> <<49, 48>> [] s = "_11" -> <<49, 49>> [] s = "_12" -> <<49, 50>>
                  [] s = "n" -> <<110>> [] s = "m" -> <<109>> [] OTHER -> <<120>>
 CharSrc(c) == IF c \in Specials THEN <<92, c>> ELSE <<c>>
 SetItemSrc(it) == IF it.k = "c" THEN <<it.c>> ELSE <<it.a, 45, it.b>>
@@ -126,6 +128,6 @@ RSrc(r) ==
                          \o RSrcSeq(r.body) \o <<41>>
     [] r.k = "ralt" -> AltSrc(r.alts, 1)
     [] r.k = "rq"   -> RSrc(r.atom) \o QuantSrc(r.min, r.max) \o (IF r.lazy THEN <<63>> ELSE <<>>)
-    [] r.k = "rref" -> IF r.name \in {"_1", "_2", "_3", "_4"} THEN <<92>> \o StrBytes(r.name)
+    [] r.k = "rref" -> IF r.name \in {"_1", "_2", "_3", "_4", "_5", "_6", "_7", "_8", "_9", "_10", "_11", "_12"} THEN <<92>> \o StrBytes(r.name)
                        ELSE <<92, 107, 60>> \o StrBytes(r.name) \o <<62>>
 =============================================================================
